@@ -148,7 +148,8 @@ func zinterstoreKeyFunc(cmd []string) (internal.KeyExtractionFuncResult, error) 
 		}, nil
 	}
 
-	if endIdx >= 3 {
+	// endIdx counts from cmd[1]: the destination is at 0, one source key before the first option is enough
+	if endIdx >= 2 {
 		return internal.KeyExtractionFuncResult{
 			Channels:  make([]string, 0),
 			ReadKeys:  cmd[2 : endIdx+1],
